@@ -90,6 +90,14 @@ fn interesting_literals() -> Vec<String> {
     .into_iter()
     .map(|s| s.to_string())
     .collect();
+    // zero-padded literals of every length class (leading zeros are allowed)
+    for k in [1usize, 2, 5, 10, 17, 18, 19, 20, 21, 30, 100, 230] {
+        for body in ["0", "1", "42", "9223372036854775807", "9223372036854775808", "123.5", "0.5", ".5", "5.", "79228162514264337593543950335", "1.10"] {
+            v.push(format!("{}{}", "0".repeat(k), body));
+        }
+        v.push(format!("1.5{}", "0".repeat(k)));
+        v.push(format!("0.{}5", "0".repeat(k)));
+    }
     // exact decimal expansions of boundary doubles and of their midpoints
     let fmax = format!("{}", f64::MAX);
     v.push(fmax.clone());
